@@ -24,13 +24,19 @@ Fixpoint digits_val (radix : N) (s : str) (acc : N) : option N :=
    The radix is assumed to be in 2..=36 (the caller models the assertion).
    Rust accumulates with checked arithmetic; the digits' magnitude only grows, so "some step overflows"
    is "the final value is out of range", which is what is tested here. *)
+Definition split_sign (signed : bool) (s : str) : bool * str :=
+  match s with
+  | [] => (false, [])
+  | c :: t => if c =? 43 then (false, t)                      (* '+' *)
+              else if (c =? 45) && signed then (true, t)      (* '-' *)
+              else (false, s)
+  end.
+
 Definition from_str_radix (signed : bool) (lo hi : Z) (radix : N) (s : str) : option Z :=
   match s with
   | [] => None
-  | c :: t =>
-      let '(neg, ds) := if c =? 43 then (false, t)
-                        else if (c =? 45) && signed then (true, t)
-                        else (false, s) in
+  | _ =>
+      let '(neg, ds) := split_sign signed s in
       match ds with
       | [] => None
       | _ => match digits_val radix ds 0 with
@@ -40,6 +46,12 @@ Definition from_str_radix (signed : bool) (lo hi : Z) (radix : N) (s : str) : op
              end
       end
   end.
+
+(* `s.starts_with("0x")` / `("0b")`, and the rest *)
+Definition strip_0x (s : str) : option str :=
+  match s with c :: d :: t => if (c =? 48) && (d =? 120) then Some t else None | _ => None end.
+Definition strip_0b (s : str) : option str :=
+  match s with c :: d :: t => if (c =? 48) && (d =? 98) then Some t else None | _ => None end.
 
 Definition i32_min : Z := (-2147483648)%Z.
 Definition i32_max : Z := 2147483647%Z.
